@@ -109,6 +109,24 @@ def gen_family_rule(rng, base, cache=False):
                 cache=bool(cache))
     if freq == 4:
         spec["interval"] = rng.choice([6, 12, 24])
+    r = rng.random()
+    if r < 0.12 and freq == 3:
+        # ended by UNTIL instead of COUNT (possibly before the other
+        # members even start)
+        n = spec.pop("count")
+        d0 = datetime.datetime(*start)
+        try:
+            spec["until"] = undt(d0 + datetime.timedelta(
+                days=spec["interval"] * max(n - 1, 0),
+                hours=rng.choice([0, 6])))
+            if n == 0:
+                spec["until"] = undt(d0 - datetime.timedelta(days=1))
+        except OverflowError:
+            spec.pop("until", None)
+            spec["count"] = n
+    elif r < 0.24 and freq in (2, 3):
+        # a BYDAY part: the rule's own dtstart need not be an occurrence
+        spec["byweekday"] = sorted(rng.sample(range(7), rng.choice([1, 2, 4])))
     return spec
 
 
